@@ -10,6 +10,9 @@ PYTHONPATH=/repo /venv/bin/python $demo >/dev/null 2>&1; base=$?
 PYTHONPATH="$W" /venv/bin/python $demo >/dev/null 2>&1; mut=$?
 # meta.json may name the properties whose checks are expected to catch the change ("checked_by"); default: the seeded property
 pids=$(python3 -c "import json;m=json.load(open('$d/meta.json'));print(' '.join(m.get('checked_by',[m['property']])))")
+res=""
+# per-scenario exploration budget (default of the checks: 900 s quick); smaller here only to keep seed sweeps short
+export PYVC_SCENARIO_BUDGET=${PYVC_SCENARIO_BUDGET:-300}
 for cp in $pids; do
 out=$(cd /verif && PYVC_REPO="$W" ./check $cp --tier quick 2>&1)
 rc=$?
@@ -17,5 +20,8 @@ viol=$(echo "$out" | grep -c "^VIOLATION")
 first=$(echo "$out" | grep "^VIOLATION" | head -2 | sed 's#.*/replays/##' | tr '\n' ' ')
 und=$(echo "$out" | grep -c "^UNDECIDED")
 echo "$name property=$pid check=$cp demo_on_unchanged=$base demo_on_seeded=$mut check_exit=$rc violations=$viol undecided=$und first=[$first]"
+res="$res{\"check\": \"$cp\", \"exit\": $rc, \"violations\": $viol, \"undecided\": $und, \"first\": \"$(echo $first | sed 's/ *$//')\"},"
 done
+# the last evaluation is kept next to the seed (read by tools_seed_table.py)
+echo "{\"repo_head\": \"$(git -C /repo log --format=%h -1)\", \"demo_on_unchanged\": $base, \"demo_on_seeded\": $mut, \"results\": [${res%,}]}" > $d/eval.json
 git -C /repo worktree remove --force "$W"; rm -rf "$W"
